@@ -93,7 +93,16 @@ inductive Core (s : TSt) : TLab → TSt → Prop
       Core s .exitBegin { s with exiting := true, hist := s.hist ++ [.exitBegin] }
   | cbRun (id : Nat) (r : Option Nat) (rest : List Item) (ex : List Nat) : s.exiting = true →
       s.waitingFor = none → s.stack = .cb id r :: rest →
+      (alookup id s.lates = none ∨ ∃ tid st, alookup id s.lates = some tid ∧ s.statusOf tid = some st) →
       Core s (.cbRun id) { s with stack := rest, excs := ex, hist := s.hist ++ [.cbRun id] }
+  | cbRunLate (id : Nat) (r : Option Nat) (rest : List Item) (ex : List Nat) (tid : Nat) :
+      s.exiting = true → s.waitingFor = none → s.stack = .cb id r :: rest →
+      alookup id s.lates = some tid → s.statusOf tid = none →
+      Core s (.cbRun id) { s.setStatus tid .running with
+        stack := .fin tid :: rest, excs := ex, hist := s.hist ++ [.cbRun id] }
+  | lateStarted (tid : Nat) : s.exiting = true → s.statusOf tid ≠ none →
+      (∃ cb, (cb, tid) ∈ s.lates) →
+      Core s (.lateStarted tid) { s with hist := s.hist ++ [.lateStarted tid] }
   | actionCalled (tid : Nat) (rest : List Item) (sp : TaskSpec) (raises : Bool) (s1 : TSt) :
       s.exiting = true → s.waitingFor = none → tid ∉ s.acted → s.stack = .fin tid :: rest →
       s.spec? tid = some sp → sp.action = .callable raises →
@@ -226,10 +235,41 @@ theorem tstep_inv0 (s s' : TSt) (l : TLab) (h : tstep? s l = some s') (hcr : s.c
         · rename_i hid
           have hid' : id = id' := by simpa using hid
           subst hid'
-          injection h with h
-          exact Or.inr ⟨_, _, Core.cbRun id r rest _ hcond.1 hcond.2 hstk, h.symm⟩
+          cases hla : alookup id s.lates with
+          | none =>
+            simp only [hla] at h
+            injection h with h
+            exact Or.inr ⟨_, _, Core.cbRun id r rest _ hcond.1 hcond.2 hstk (Or.inl hla), h.symm⟩
+          | some tid =>
+            cases hst : s.statusOf tid with
+            | none =>
+              simp only [hla, hst] at h
+              injection h with h
+              exact Or.inr ⟨_, _, Core.cbRunLate id r rest _ tid hcond.1 hcond.2 hstk hla hst, h.symm⟩
+            | some st =>
+              simp only [hla, hst] at h
+              injection h with h
+              exact Or.inr ⟨_, _, Core.cbRun id r rest _ hcond.1 hcond.2 hstk
+                (Or.inr ⟨tid, st, hla, hst⟩), h.symm⟩
         · exact absurd h (by simp)
       · exact absurd h (by simp)
+    · exact absurd h (by simp)
+  | lateStarted tid =>
+    unfold tstep? at h
+    simp only [hie, Bool.not_true, Bool.false_eq_true, if_false, if_true] at h
+    split at h
+    · exact absurd h (by simp)
+    split at h
+    · rename_i hcond
+      simp only [Bool.and_eq_true, List.any_eq_true, beq_iff_eq] at hcond
+      injection h with h
+      obtain ⟨⟨hexi, hsome⟩, ⟨cb, t⟩, hmem, ht⟩ := hcond
+      have ht' : t = tid := ht
+      subst ht'
+      refine Or.inr ⟨_, _, Core.lateStarted t hexi ?_ ⟨cb, hmem⟩, h.symm⟩
+      intro hn
+      rw [hn] at hsome
+      exact absurd hsome (by simp)
     · exact absurd h (by simp)
   | actionCalled tid =>
     unfold tstep? at h
@@ -347,6 +387,11 @@ inductive Mv (s : TSt) : TSt → Prop
       hh = s.hist ++ h → (∀ t, TLab.actionCalled t ∉ h) →
       s.waitingFor = none → s.stack = .cb id r :: rest →
       Mv s { s with stack := rest, excs := ex, hist := hh }
+  | popCbLate (id : Nat) (r : Option Nat) (rest : List Item) (ex : List Nat) (tid : Nat) :
+      s.waitingFor = none → s.stack = .cb id r :: rest →
+      alookup id s.lates = some tid → s.statusOf tid = none →
+      Mv s { s.setStatus tid .running with
+        stack := .fin tid :: rest, excs := ex, hist := s.hist ++ [.cbRun id] }
   | popFin (tid : Nat) (e : Option Nat) :
       s.waitingFor = some tid → s.statusOf tid = some (.closed e) →
       Mv s { s with waitingFor := none, stack := s.stack.filter (· != Item.fin tid) }
@@ -365,8 +410,12 @@ theorem core_moves (P : TSt → Prop) (hP : ∀ s s', P s → Mv s s' → P s') 
     exact hP _ _ h (Mv.set tid _ _ _ [_] rfl (by simp) hst (by simp) (by simp))
   | exitBegin hex =>
     exact hP _ _ h (Mv.flags true s.left s.reported _ [_] rfl (by simp))
-  | cbRun id r rest ex hex hw hstk =>
+  | cbRun id r rest ex hex hw hstk _ =>
     exact hP _ _ h (Mv.popCb id r rest ex _ [_] rfl (by simp) hw hstk)
+  | cbRunLate id r rest ex tid hex hw hstk hla hst =>
+    exact hP _ _ h (Mv.popCbLate id r rest ex tid hw hstk hla hst)
+  | lateStarted tid hex hst hla =>
+    exact hP _ _ h (Mv.flags s.exiting s.left s.reported _ [_] rfl (by simp))
   | actionCalled tid rest sp raises s1 hex hw hna hstk hsp hact hs1 =>
     rcases hs1 with hs1 | ⟨hst, hs1⟩
     · subst hs1
@@ -449,17 +498,19 @@ structure Inv (I : List Item) (s : TSt) : Prop where
   called_acted : ∀ tid, TLab.actionCalled tid ∈ s.hist →
     tid ∈ s.acted ∧ ∃ sp r, s.spec? tid = some sp ∧ sp.action = .callable r
   count : ∀ tid, s.hist.count (TLab.actionCalled tid) ≤ 1
+  gone_st : ∀ tid, s.statusOf tid ≠ none → Item.fin tid ∉ s.stack →
+    (∃ e, s.statusOf tid = some (.closed e)) ∧ tid ∈ s.acted
 
 theorem count_append_not_mem (a : TLab) (l h : List TLab) (hn : a ∉ h) :
     (l ++ h).count a = l.count a := by
   rw [List.count_append, List.count_eq_zero.mpr hn, Nat.add_zero]
 
 theorem Inv.move (I : List Item) (s s' : TSt) (hi : Inv I s) (hm : Mv s s') : Inv I s' := by
-  obtain ⟨h1, h2, h3, h4, h5, h6⟩ := hi
+  obtain ⟨h1, h2, h3, h4, h5, h6, h7⟩ := hi
   cases hm with
   | set tid st st' hh h hhe hnh hst hncl hask =>
     subst hhe
-    refine ⟨h1, ?_, ?_, ?_, ?_, ?_⟩
+    refine ⟨h1, ?_, ?_, ?_, ?_, ?_, ?_⟩
     · intro t hI hns
       obtain ⟨⟨e, he⟩, ha⟩ := h2 t hI hns
       refine ⟨⟨e, ?_⟩, ha⟩
@@ -486,9 +537,23 @@ theorem Inv.move (I : List Item) (s s' : TSt) (hi : Inv I s) (hm : Mv s s') : In
     · intro t
       show (s.hist ++ h).count _ ≤ 1
       rw [count_append_not_mem _ _ _ (hnh t)]; exact h6 t
+    · intro t hsn hns
+      have hsn' : s.statusOf t ≠ none := by
+        have hsn'' : (s.setStatus tid st').statusOf t ≠ none := hsn
+        rw [statusOf_setStatus] at hsn''
+        by_cases htt : tid = t
+        · subst htt; rw [hst]; simp
+        · simpa only [htt, if_false] using hsn''
+      obtain ⟨⟨e, he⟩, ha⟩ := h7 t hsn' hns
+      refine ⟨⟨e, ?_⟩, ha⟩
+      show (s.setStatus tid st').statusOf t = _
+      rw [statusOf_setStatus]
+      by_cases htt : tid = t
+      · subst htt; rw [hst] at he; exact absurd (Option.some.inj he) (hncl e)
+      · simp only [htt, if_false]; exact he
   | flags b1 b2 b3 hh h hhe hnh =>
     subst hhe
-    refine ⟨h1, h2, h3, ?_, ?_, ?_⟩
+    refine ⟨h1, h2, h3, ?_, ?_, ?_, h7⟩
     · intro t sp r ha hsp hact
       exact List.mem_append_left _ (h4 t sp r ha hsp hact)
     · intro t ht
@@ -500,9 +565,17 @@ theorem Inv.move (I : List Item) (s s' : TSt) (hi : Inv I s) (hm : Mv s s') : In
       rw [count_append_not_mem _ _ _ (hnh t)]; exact h6 t
   | popCb id r rest ex hh h hhe hnh hw hstk =>
     subst hhe
-    refine ⟨h1, ?_, h3, ?_, ?_, ?_⟩
+    refine ⟨h1, ?_, h3, ?_, ?_, ?_, ?_⟩
     · intro t hI hns
       apply h2 t hI
+      rw [hstk]
+      intro hmem
+      rcases List.mem_cons.mp hmem with hmem | hmem
+      · exact absurd hmem (by simp)
+      · exact hns hmem
+    rotate_left 3
+    · intro t hsn hns
+      apply h7 t hsn
       rw [hstk]
       intro hmem
       rcases List.mem_cons.mp hmem with hmem | hmem
@@ -518,7 +591,7 @@ theorem Inv.move (I : List Item) (s s' : TSt) (hi : Inv I s) (hm : Mv s s') : In
       show (s.hist ++ h).count _ ≤ 1
       rw [count_append_not_mem _ _ _ (hnh t)]; exact h6 t
   | popFin tid e hw hst =>
-    refine ⟨?_, ?_, h3, h4, h5, h6⟩
+    refine ⟨?_, ?_, h3, h4, h5, h6, ?_⟩
     · intro t ht; exact absurd ht (by simp)
     · intro t hI hns
       by_cases htt : t = tid
@@ -529,14 +602,69 @@ theorem Inv.move (I : List Item) (s s' : TSt) (hi : Inv I s) (hm : Mv s s') : In
         show Item.fin t ∈ s.stack.filter (· != Item.fin tid)
         rw [List.mem_filter]
         exact ⟨hmem, by simp [htt]⟩
+    · intro t hsn hns
+      by_cases htt : t = tid
+      · subst htt; exact ⟨⟨e, hst⟩, h1 t hw⟩
+      · apply h7 t hsn
+        intro hmem
+        apply hns
+        show Item.fin t ∈ s.stack.filter (· != Item.fin tid)
+        rw [List.mem_filter]
+        exact ⟨hmem, by simp [htt]⟩
+  | popCbLate id r rest ex tid hw hstk hla hst =>
+    have hother : ∀ t, t ≠ tid → (s.setStatus tid .running).statusOf t = s.statusOf t := by
+      intro t ht
+      rw [statusOf_setStatus]
+      have hne : ¬ tid = t := fun e => ht e.symm
+      simp only [hne, if_false]
+    have hstack : ∀ t, Item.fin t ∉ Item.fin tid :: rest → Item.fin t ∉ s.stack := by
+      intro t hns hmem
+      rw [hstk] at hmem
+      rcases List.mem_cons.mp hmem with hmem | hmem
+      · exact absurd hmem (by simp)
+      · exact hns (List.mem_cons_of_mem _ hmem)
+    refine ⟨h1, ?_, ?_, ?_, ?_, ?_, ?_⟩
+    · intro t hI hns
+      obtain ⟨⟨e, he⟩, ha⟩ := h2 t hI (hstack t hns)
+      have htt : t ≠ tid := by
+        intro htt; subst htt; rw [hst] at he; exact absurd he (by simp)
+      exact ⟨⟨e, (hother t htt).trans he⟩, ha⟩
+    · intro t ht
+      have ht' : (s.setStatus tid .running).statusOf t = some .cancelAsked := ht
+      by_cases htt : t = tid
+      · subst htt
+        rw [statusOf_setStatus] at ht'
+        simp at ht'
+      · rw [hother t htt] at ht'
+        exact h3 t ht'
+    · intro t sp r ha hsp hact
+      exact List.mem_append_left _ (h4 t sp r ha hsp hact)
+    · intro t ht
+      rcases List.mem_append.mp ht with ht | ht
+      · exact h5 t ht
+      · exact absurd ht (by simp)
+    · intro t
+      show (s.hist ++ [TLab.cbRun id]).count _ ≤ 1
+      rw [count_append_not_mem _ _ _ (by simp)]; exact h6 t
+    · intro t hsn hns
+      have hsn' : (s.setStatus tid .running).statusOf t ≠ none := hsn
+      have htt : t ≠ tid := by
+        intro htt; subst htt; exact hns List.mem_cons_self
+      rw [hother t htt] at hsn'
+      obtain ⟨⟨e, he⟩, ha⟩ := h7 t hsn' (hstack t hns)
+      exact ⟨⟨e, (hother t htt).trans he⟩, ha⟩
   | act tid rest sp hh hw hstk hsp hcase =>
-    refine ⟨?_, ?_, h3, ?_, ?_, ?_⟩
+    refine ⟨?_, ?_, h3, ?_, ?_, ?_, ?_⟩
     · intro t ht
       have : tid = t := Option.some.inj ht
       subst this
       exact List.mem_cons_self
     · intro t hI hns
       obtain ⟨he, ha⟩ := h2 t hI hns
+      exact ⟨he, List.mem_cons_of_mem _ ha⟩
+    rotate_left 3
+    · intro t hsn hns
+      obtain ⟨he, ha⟩ := h7 t hsn hns
       exact ⟨he, List.mem_cons_of_mem _ ha⟩
     · intro t sp' r ha hsp' hact
       show TLab.actionCalled t ∈ hh
@@ -579,57 +707,150 @@ theorem Inv.move (I : List Item) (s s' : TSt) (hi : Inv I s) (hm : Mv s s') : In
           simp
         · rw [count_append_not_mem _ _ _ (by simp [htt])]; exact h6 t
 
-/-- Invariants that need the items of the initial stack `I` to be pairwise distinct. -/
-structure Inv2 (I : List Item) (s : TSt) : Prop where
-  suffix : ∃ popped, popped ++ s.stack = I
-  wait_head : ∀ tid, s.waitingFor = some tid → s.stack.head? = some (.fin tid)
+theorem alookup_mem {α : Type} (k : Nat) (v : α) (l : List (Nat × α)) (h : alookup k l = some v) :
+    (k, v) ∈ l := by
+  induction l with
+  | nil => simp at h
+  | cons p l ih =>
+    obtain ⟨k', v'⟩ := p
+    rw [alookup_cons] at h
+    by_cases hk : k' = k
+    · simp only [hk, if_true] at h
+      have := Option.some.inj h
+      subst this; subst hk; exact List.mem_cons_self
+    · simp only [hk, if_false] at h
+      exact List.mem_cons_of_mem _ (ih h)
 
-theorem Inv2.move (I : List Item) (hI : I.Nodup) (s s' : TSt) (hi : Inv2 I s) (hm : Mv s s') :
-    Inv2 I s' := by
-  obtain ⟨h1, h2⟩ := hi
+/-- The shape of the owner's stack: a suffix `rest` of the initial stack `I`, possibly with the
+finalizer of one late task (`L`: callback ↦ late task) whose callback has run on top of it. -/
+def Shape (I : List Item) (L : List (Nat × Nat)) (stk : List Item) (hist : List TLab) : Prop :=
+  ∃ popped rest, popped ++ rest = I ∧
+    (stk = rest ∨ ∃ cb tid, (cb, tid) ∈ L ∧ TLab.cbRun cb ∈ hist ∧ stk = .fin tid :: rest)
+
+theorem Shape.mono {I : List Item} {L : List (Nat × Nat)} {stk : List Item} {h h' : List TLab}
+    (hs : Shape I L stk h) (hsub : ∀ x, x ∈ h → x ∈ h') : Shape I L stk h' := by
+  obtain ⟨p, rest, hp, hs | ⟨cb, tid, hL, hh, hs⟩⟩ := hs
+  · exact ⟨p, rest, hp, Or.inl hs⟩
+  · exact ⟨p, rest, hp, Or.inr ⟨cb, tid, hL, hsub _ hh, hs⟩⟩
+
+/-- Invariants that need distinctness: the items of the initial stack `I` are pairwise distinct,
+the late tasks `L` have no finalizer in `I`, and no two callbacks start the same late task. -/
+structure Inv2 (I : List Item) (L : List (Nat × Nat)) (s : TSt) : Prop where
+  suffix : Shape I L s.stack s.hist
+  wait_head : ∀ tid, s.waitingFor = some tid → s.stack.head? = some (.fin tid)
+  lates_eq : s.lates = L
+  late_ran : ∀ cb tid, (cb, tid) ∈ L → s.statusOf tid ≠ none → TLab.cbRun cb ∈ s.hist
+
+theorem filter_ne_self (x : Item) (l : List Item) (h : x ∉ l) : l.filter (· != x) = l := by
+  rw [List.filter_eq_self]
+  intro y hy
+  have : y ≠ x := fun hxe => h (hxe ▸ hy)
+  simpa using this
+
+theorem Inv2.move (I : List Item) (L : List (Nat × Nat)) (hI : I.Nodup)
+    (hLI : ∀ cb tid, (cb, tid) ∈ L → Item.fin tid ∉ I)
+    (hLn : ∀ cb cb' tid, (cb, tid) ∈ L → (cb', tid) ∈ L → cb = cb')
+    (s s' : TSt) (hi : Inv2 I L s) (hm : Mv s s') : Inv2 I L s' := by
+  obtain ⟨h1, h2, h3, h4⟩ := hi
   cases hm with
-  | set tid st st' hh h hhe hnh hst hncl hask => exact ⟨h1, h2⟩
-  | flags b1 b2 b3 hh h hhe hnh => exact ⟨h1, h2⟩
+  | set tid st st' hh h hhe hnh hst hncl hask =>
+    subst hhe
+    refine ⟨h1.mono (fun x hx => List.mem_append_left _ hx), h2, h3, ?_⟩
+    intro cb t hL hsn
+    apply List.mem_append_left
+    apply h4 cb t hL
+    have hsn' : (s.setStatus tid st').statusOf t ≠ none := hsn
+    rw [statusOf_setStatus] at hsn'
+    by_cases htt : tid = t
+    · subst htt; rw [hst]; simp
+    · simpa only [htt, if_false] using hsn'
+  | flags b1 b2 b3 hh h hhe hnh =>
+    subst hhe
+    exact ⟨h1.mono (fun x hx => List.mem_append_left _ hx), h2, h3,
+      fun cb t hL hsn => List.mem_append_left _ (h4 cb t hL hsn)⟩
   | popCb id r rest ex hh h hhe hnh hw hstk =>
-    refine ⟨?_, ?_⟩
-    · obtain ⟨p, hp⟩ := h1
-      refine ⟨p ++ [.cb id r], ?_⟩
-      show (p ++ [.cb id r]) ++ rest = I
-      rw [← hp, hstk]; simp
+    subst hhe
+    refine ⟨?_, ?_, h3, fun cb t hL hsn => List.mem_append_left _ (h4 cb t hL hsn)⟩
+    · obtain ⟨p, rest0, hp, hs | ⟨cb, t, _, _, hs⟩⟩ := h1
+      · refine ⟨p ++ [.cb id r], rest, ?_, Or.inl rfl⟩
+        rw [← hp, ← hs, hstk]; simp
+      · rw [hstk] at hs; exact absurd (List.cons.inj hs).1 (by simp)
     · intro t ht
       have ht' : s.waitingFor = some t := ht
       rw [hw] at ht'; exact absurd ht' (by simp)
+  | popCbLate id r rest ex tid hw hstk hla hst =>
+    have hmemL : (id, tid) ∈ L := h3 ▸ alookup_mem id tid s.lates hla
+    refine ⟨?_, ?_, h3, ?_⟩
+    · obtain ⟨p, rest0, hp, hs | ⟨cb, t, _, _, hs⟩⟩ := h1
+      · refine ⟨p ++ [.cb id r], rest, ?_, Or.inr ⟨id, tid, hmemL, ?_, rfl⟩⟩
+        · rw [← hp, ← hs, hstk]; simp
+        · show TLab.cbRun id ∈ s.hist ++ [TLab.cbRun id]
+          simp
+      · rw [hstk] at hs; exact absurd (List.cons.inj hs).1 (by simp)
+    · intro t ht
+      have ht' : s.waitingFor = some t := ht
+      rw [hw] at ht'; exact absurd ht' (by simp)
+    · intro cb t hL hsn
+      show TLab.cbRun cb ∈ s.hist ++ [TLab.cbRun id]
+      by_cases htt : t = tid
+      · subst htt
+        rw [hLn cb id t hL hmemL]; simp
+      · apply List.mem_append_left
+        apply h4 cb t hL
+        have hsn' : (s.setStatus tid .running).statusOf t ≠ none := hsn
+        rw [statusOf_setStatus] at hsn'
+        have hne : ¬ tid = t := fun e => htt e.symm
+        simpa only [hne, if_false] using hsn'
   | popFin tid e hw hst =>
-    refine ⟨?_, ?_⟩
-    · obtain ⟨p, hp⟩ := h1
-      have hh := h2 tid hw
-      cases hstk : s.stack with
-      | nil => rw [hstk] at hh; exact absurd hh (by simp)
-      | cons a rest =>
-        rw [hstk] at hh
-        have ha : a = .fin tid := by simpa using hh
-        subst ha
-        have hnd : (Item.fin tid :: rest).Nodup := by
-          have : (p ++ s.stack).Nodup := hp ▸ hI
-          rw [hstk] at this
-          exact (List.nodup_append.mp this).2.1
-        have hnm : Item.fin tid ∉ rest := (List.nodup_cons.mp hnd).1
-        refine ⟨p ++ [.fin tid], ?_⟩
-        show (p ++ [.fin tid]) ++ List.filter (· != Item.fin tid) (Item.fin tid :: rest) = I
-        rw [List.filter_cons_of_neg (by simp)]
-        rw [List.filter_eq_self.mpr]
-        · rw [← hp, hstk]; simp
-        · intro x hx
-          have : x ≠ Item.fin tid := fun hxe => hnm (hxe ▸ hx)
-          simpa using this
+    refine ⟨?_, ?_, h3, h4⟩
+    · have hh := h2 tid hw
+      obtain ⟨p, rest0, hp, hs | ⟨cb, t, hL, hran, hs⟩⟩ := h1
+      · cases hstk : s.stack with
+        | nil => rw [hstk] at hh; exact absurd hh (by simp)
+        | cons a rest =>
+          rw [hstk] at hh
+          have ha : a = .fin tid := by simpa using hh
+          subst ha
+          have hnd : (Item.fin tid :: rest).Nodup := by
+            have : (p ++ rest0).Nodup := hp ▸ hI
+            rw [← hs, hstk] at this
+            exact (List.nodup_append.mp this).2.1
+          have hnm : Item.fin tid ∉ rest := (List.nodup_cons.mp hnd).1
+          refine ⟨p ++ [.fin tid], rest, ?_, Or.inl ?_⟩
+          · rw [← hp, ← hs, hstk]; simp
+          · show List.filter (· != Item.fin tid) (Item.fin tid :: rest) = rest
+            rw [List.filter_cons_of_neg (by simp)]
+            exact filter_ne_self _ _ hnm
+      · rw [hs] at hh
+        have ht : t = tid := by simpa using hh
+        subst ht
+        have hnm : Item.fin t ∉ rest0 :=
+          fun hm => hLI cb t hL (hp ▸ List.mem_append_right _ hm)
+        refine ⟨p, rest0, hp, Or.inl ?_⟩
+        show List.filter (· != Item.fin t) s.stack = rest0
+        rw [hs, List.filter_cons_of_neg (by simp)]
+        exact filter_ne_self _ _ hnm
     · intro t ht; exact absurd ht (by simp)
   | act tid rest sp hh hw hstk hsp hcase =>
-    refine ⟨h1, ?_⟩
+    have hsub : ∀ x, x ∈ s.hist → x ∈ hh := by
+      intro x hx
+      rcases hcase with ⟨_, hhe⟩ | ⟨_, _, hhe⟩
+      · rw [hhe]; exact hx
+      · rw [hhe]; exact List.mem_append_left _ hx
+    refine ⟨h1.mono hsub, ?_, h3, fun cb t hL hsn => hsub _ (h4 cb t hL hsn)⟩
     intro t ht
     have : tid = t := Option.some.inj ht
     subst this
     show s.stack.head? = _
     rw [hstk]; rfl
+
+/-- While an ordinary callback is on top, the whole stack is part of the initial one. -/
+theorem Inv2.cb_top (I : List Item) (L : List (Nat × Nat)) (s : TSt) (hi : Inv2 I L s) (id : Nat)
+    (r : Option Nat) (rest : List Item) (hstk : s.stack = .cb id r :: rest) :
+    ∃ popped, popped ++ s.stack = I := by
+  obtain ⟨p, rest0, hp, hs | ⟨cb, t, _, _, hs⟩⟩ := hi.suffix
+  · exact ⟨p, hs ▸ hp⟩
+  · rw [hstk] at hs; exact absurd (List.cons.inj hs).1 (by simp)
 
 /-! ### The initial state -/
 
@@ -637,28 +858,65 @@ def itemOf : Setup → Option Item
   | .reg id r => some (.cb id r)
   | .start sp => some (.fin sp.tid)
   | .res _ => none
+  | .late _ _ => none
 
+/-- The specification of a task, started by the set-up program or late. -/
 def specOf : Setup → Option TaskSpec
   | .start sp => some sp
+  | .late _ sp => some sp
   | _ => none
 
+/-- The id of a task started by the set-up program. -/
 def tidOf : Setup → Option Nat
   | .start sp => some sp.tid
+  | _ => none
+
+/-- The id of a task, started by the set-up program or late. -/
+def allTidOf : Setup → Option Nat
+  | .start sp => some sp.tid
+  | .late _ sp => some sp.tid
   | _ => none
 
 def cbIdOf : Setup → Option Nat
   | .reg id _ => some id
   | _ => none
 
+def lateOf : Setup → Option (Nat × Nat)
+  | .late cb sp => some (cb, sp.tid)
+  | _ => none
+
+def lateCbOf : Setup → Option Nat
+  | .late cb _ => some cb
+  | _ => none
+
 theorem init_specs (prog : List Setup) : (TSt.init prog).specs = prog.filterMap specOf := by
   show List.filterMap _ prog = _
   congr 1
+
+theorem init_lates (prog : List Setup) : (TSt.init prog).lates = prog.filterMap lateOf := by
+  show List.filterMap _ prog = _
+  congr 1
+
+theorem init_status (prog : List Setup) :
+    akeys (TSt.init prog).status = prog.filterMap tidOf := by
+  show List.map Prod.fst (List.map _ (List.filterMap _ prog)) = _
+  rw [List.map_map, List.map_filterMap]
+  congr 1
+  funext x
+  cases x <;> rfl
+
+theorem init_statusOf_none (prog : List Setup) (tid : Nat) (h : tid ∉ prog.filterMap tidOf) :
+    (TSt.init prog).statusOf tid = none := by
+  unfold TSt.statusOf
+  rw [alookup_none_iff, init_status]
+  exact h
 
 theorem foldl_stack (prog : List Setup) (acc : List Item) :
     prog.foldl (fun st s => match s with
       | .reg id r => Item.cb id r :: st
       | .start sp => Item.fin sp.tid :: st
-      | .res _ => st) acc = (prog.filterMap itemOf).reverse ++ acc := by
+      | .res _ => st
+      | .late _ _ => st) acc = (prog.filterMap itemOf).reverse ++ acc := by
   induction prog generalizing acc with
   | nil => rfl
   | cons x rest ih =>
@@ -669,6 +927,8 @@ theorem foldl_stack (prog : List Setup) (acc : List Item) :
       rw [List.foldl_cons, ih, List.filterMap_cons_some (rfl : itemOf (.start sp) = some (.fin sp.tid))]; simp
     | res v =>
       rw [List.foldl_cons, ih, List.filterMap_cons_none (rfl : itemOf (.res v) = none)]
+    | late cb sp =>
+      rw [List.foldl_cons, ih, List.filterMap_cons_none (rfl : itemOf (.late cb sp) = none)]
 
 theorem init_stack (prog : List Setup) :
     (TSt.init prog).stack = (prog.filterMap itemOf).reverse := by
@@ -707,6 +967,9 @@ theorem items_nodup (prog : List Setup) (h1 : (prog.filterMap tidOf).Nodup)
     | res v =>
       simp only [List.filterMap_cons, itemOf, cbIdOf, tidOf] at h1 h2 ⊢
       exact ih h1 h2
+    | late cb sp =>
+      simp only [List.filterMap_cons, itemOf, cbIdOf, tidOf] at h1 h2 ⊢
+      exact ih h1 h2
 
 theorem items_cb_unique (prog : List Setup) (h2 : (prog.filterMap cbIdOf).Nodup) (id : Nat)
     (r r' : Option Nat) (h : Item.cb id r ∈ prog.filterMap itemOf)
@@ -731,11 +994,111 @@ theorem items_cb_unique (prog : List Setup) (h2 : (prog.filterMap cbIdOf).Nodup)
     | res v =>
       simp only [List.filterMap_cons, itemOf, cbIdOf] at h h' h2
       exact ih h2 h h'
+    | late cb sp =>
+      simp only [List.filterMap_cons, itemOf, cbIdOf] at h h' h2
+      exact ih h2 h h'
 
-theorem init_stack_nodup (prog : List Setup) (h1 : (prog.filterMap tidOf).Nodup)
+/-! #### Task ids: started by the set-up program, and late -/
+
+theorem allTid_perm (prog : List Setup) :
+    (prog.filterMap allTidOf).Perm
+      (prog.filterMap tidOf ++ (prog.filterMap lateOf).map (·.2)) := by
+  induction prog with
+  | nil => simp
+  | cons x rest ih =>
+    cases x with
+    | reg id r => simpa only [List.filterMap_cons, allTidOf, tidOf, lateOf] using ih
+    | start sp =>
+      simp only [List.filterMap_cons, allTidOf, tidOf, lateOf, List.cons_append]
+      exact ih.cons _
+    | res v => simpa only [List.filterMap_cons, allTidOf, tidOf, lateOf] using ih
+    | late cb sp =>
+      simp only [List.filterMap_cons, allTidOf, tidOf, lateOf, List.map_cons]
+      exact (ih.cons _).trans List.perm_middle.symm
+
+theorem tid_nodup (prog : List Setup) (h1 : (prog.filterMap allTidOf).Nodup) :
+    (prog.filterMap tidOf).Nodup :=
+  (List.nodup_append.mp ((allTid_perm prog).nodup_iff.mp h1)).1
+
+theorem late_tid_nodup (prog : List Setup) (h1 : (prog.filterMap allTidOf).Nodup) :
+    ((prog.filterMap lateOf).map (·.2)).Nodup :=
+  (List.nodup_append.mp ((allTid_perm prog).nodup_iff.mp h1)).2.1
+
+theorem late_not_started (prog : List Setup) (h1 : (prog.filterMap allTidOf).Nodup) (cb tid : Nat)
+    (h : (cb, tid) ∈ prog.filterMap lateOf) : tid ∉ prog.filterMap tidOf := by
+  intro hm
+  exact (List.nodup_append.mp ((allTid_perm prog).nodup_iff.mp h1)).2.2 tid hm tid
+    (List.mem_map.mpr ⟨(cb, tid), h, rfl⟩) rfl
+
+theorem mem_lates (prog : List Setup) (cb tid : Nat) :
+    (cb, tid) ∈ prog.filterMap lateOf ↔ ∃ sp, Setup.late cb sp ∈ prog ∧ sp.tid = tid := by
+  constructor
+  · intro h
+    obtain ⟨a, ha, he⟩ := List.mem_filterMap.mp h
+    cases a with
+    | late cb' sp =>
+      simp only [lateOf, Option.some.injEq, Prod.mk.injEq] at he
+      obtain ⟨h1, h2⟩ := he
+      subst h1
+      exact ⟨sp, ha, h2⟩
+    | reg id r => simp [lateOf] at he
+    | start sp => simp [lateOf] at he
+    | res v => simp [lateOf] at he
+  · rintro ⟨sp, hm, rfl⟩
+    exact List.mem_filterMap.mpr ⟨_, hm, rfl⟩
+
+theorem pairs_snd_unique (L : List (Nat × Nat)) (hn : (L.map (·.2)).Nodup) (a b c : Nat)
+    (ha : (a, c) ∈ L) (hb : (b, c) ∈ L) : a = b := by
+  induction L with
+  | nil => simp at ha
+  | cons p rest ih =>
+    simp only [List.map_cons, List.nodup_cons] at hn
+    rcases List.mem_cons.mp ha with ha1 | ha1
+    · rcases List.mem_cons.mp hb with hb1 | hb1
+      · rw [← ha1] at hb1; exact ((Prod.mk.inj hb1).1).symm
+      · have hc : c = p.2 := by rw [← ha1]
+        exact absurd (List.mem_map.mpr ⟨(b, c), hb1, hc⟩) hn.1
+    · rcases List.mem_cons.mp hb with hb1 | hb1
+      · have hc : c = p.2 := by rw [← hb1]
+        exact absurd (List.mem_map.mpr ⟨(a, c), ha1, hc⟩) hn.1
+      · exact ih hn.2 ha1 hb1
+
+theorem alookup_of_mem (L : List (Nat × Nat)) (hn : (L.map (·.1)).Nodup) (k v : Nat)
+    (h : (k, v) ∈ L) : alookup k L = some v := by
+  induction L with
+  | nil => simp at h
+  | cons p rest ih =>
+    obtain ⟨k', v'⟩ := p
+    simp only [List.map_cons, List.nodup_cons] at hn
+    rw [alookup_cons]
+    rcases List.mem_cons.mp h with h | h
+    · obtain ⟨h1, h2⟩ := Prod.mk.inj h
+      subst h1; subst h2; simp
+    · have hne : ¬ k' = k := by
+        intro he
+        subst he
+        exact hn.1 (List.mem_map.mpr ⟨(k', v), h, rfl⟩)
+      simp only [hne, if_false]
+      exact ih hn.2 h
+
+/-- The callback of a late task starts that task (each callback starts at most one). -/
+theorem init_lates_lookup (prog : List Setup) (h3 : (prog.filterMap lateCbOf).Nodup) (cb : Nat)
+    (sp : TaskSpec) (h : Setup.late cb sp ∈ prog) :
+    alookup cb (TSt.init prog).lates = some sp.tid := by
+  rw [init_lates]
+  apply alookup_of_mem
+  · have : (prog.filterMap lateOf).map (·.1) = prog.filterMap lateCbOf := by
+      rw [List.map_filterMap]
+      congr 1
+      funext x
+      cases x <;> rfl
+    rw [this]; exact h3
+  · exact (mem_lates prog cb sp.tid).mpr ⟨sp, h, rfl⟩
+
+theorem init_stack_nodup (prog : List Setup) (h1 : (prog.filterMap allTidOf).Nodup)
     (h2 : (prog.filterMap cbIdOf).Nodup) : (TSt.init prog).stack.Nodup := by
   rw [init_stack]
-  exact List.Nodup.perm (items_nodup prog h1 h2) (List.reverse_perm _).symm
+  exact List.Nodup.perm (items_nodup prog (tid_nodup prog h1) h2) (List.reverse_perm _).symm
 
 theorem init_stack_cb_unique (prog : List Setup) (h2 : (prog.filterMap cbIdOf).Nodup) (id : Nat)
     (r r' : Option Nat) (h : Item.cb id r ∈ (TSt.init prog).stack)
@@ -747,6 +1110,27 @@ theorem init_stack_mem_fin (prog : List Setup) (sp : TaskSpec) (h : Setup.start 
     Item.fin sp.tid ∈ (TSt.init prog).stack := by
   rw [init_stack, List.mem_reverse]
   exact List.mem_filterMap.mpr ⟨_, h, rfl⟩
+
+/-- A late task has no finalizer on the stack the set-up program leaves. -/
+theorem init_stack_no_late (prog : List Setup) (h1 : (prog.filterMap allTidOf).Nodup)
+    (cb tid : Nat) (h : (cb, tid) ∈ (TSt.init prog).lates) :
+    Item.fin tid ∉ (TSt.init prog).stack := by
+  rw [init_lates] at h
+  rw [init_stack, List.mem_reverse]
+  exact fun hm => late_not_started prog h1 cb tid h (mem_items_fin prog tid hm)
+
+theorem init_stack_no_late_fin (prog : List Setup) (h1 : (prog.filterMap allTidOf).Nodup)
+    (cb : Nat) (sp : TaskSpec) (h : Setup.late cb sp ∈ prog) :
+    Item.fin sp.tid ∉ (TSt.init prog).stack :=
+  init_stack_no_late prog h1 cb sp.tid
+    (by rw [init_lates]; exact (mem_lates prog cb sp.tid).mpr ⟨sp, h, rfl⟩)
+
+/-- Until its callback has run a late task has no status. -/
+theorem init_statusOf_late (prog : List Setup) (h1 : (prog.filterMap allTidOf).Nodup)
+    (cb : Nat) (sp : TaskSpec) (h : Setup.late cb sp ∈ prog) :
+    (TSt.init prog).statusOf sp.tid = none :=
+  init_statusOf_none prog sp.tid
+    (late_not_started prog h1 cb sp.tid ((mem_lates prog cb sp.tid).mpr ⟨sp, h, rfl⟩))
 
 theorem find_spec_of_nodup (L : List TaskSpec) (hn : (L.map (·.tid)).Nodup) (sp : TaskSpec)
     (h : sp ∈ L) : L.find? (·.tid == sp.tid) = some sp := by
@@ -764,18 +1148,27 @@ theorem find_spec_of_nodup (L : List TaskSpec) (hn : (L.map (·.tid)).Nodup) (sp
       rw [List.find?_cons_of_neg (by simpa using hne)]
       exact ih hn.2 h
 
-theorem init_spec (prog : List Setup) (h1 : (prog.filterMap tidOf).Nodup) (sp : TaskSpec)
-    (h : Setup.start sp ∈ prog) : (TSt.init prog).spec? sp.tid = some sp := by
+theorem init_spec_of (prog : List Setup) (h1 : (prog.filterMap allTidOf).Nodup) (x : Setup)
+    (sp : TaskSpec) (hx : x ∈ prog) (hs : specOf x = some sp) :
+    (TSt.init prog).spec? sp.tid = some sp := by
   unfold TSt.spec?
   rw [init_specs]
   apply find_spec_of_nodup
-  · have : (prog.filterMap specOf).map (·.tid) = prog.filterMap tidOf := by
+  · have : (prog.filterMap specOf).map (·.tid) = prog.filterMap allTidOf := by
       rw [List.map_filterMap]
       congr 1
       funext x
       cases x <;> rfl
     rw [this]; exact h1
-  · exact List.mem_filterMap.mpr ⟨_, h, rfl⟩
+  · exact List.mem_filterMap.mpr ⟨_, hx, hs⟩
+
+theorem init_spec (prog : List Setup) (h1 : (prog.filterMap allTidOf).Nodup) (sp : TaskSpec)
+    (h : Setup.start sp ∈ prog) : (TSt.init prog).spec? sp.tid = some sp :=
+  init_spec_of prog h1 _ sp h rfl
+
+theorem init_spec_late (prog : List Setup) (h1 : (prog.filterMap allTidOf).Nodup) (cb : Nat)
+    (sp : TaskSpec) (h : Setup.late cb sp ∈ prog) : (TSt.init prog).spec? sp.tid = some sp :=
+  init_spec_of prog h1 _ sp h rfl
 
 theorem alookup_map_const {α : Type} (f : α → Nat) (c v : TStatus) (L : List α) (k : Nat)
     (h : alookup k (L.map fun a => (f a, c)) = some v) : v = c := by
@@ -788,7 +1181,7 @@ theorem alookup_map_const {α : Type} (f : α → Nat) (c v : TStatus) (L : List
     · simp only [hk, if_false] at h; exact ih h
 
 theorem init_inv (prog : List Setup) : Inv (TSt.init prog).stack (TSt.init prog) := by
-  refine ⟨?_, ?_, ?_, ?_, ?_, ?_⟩
+  refine ⟨?_, ?_, ?_, ?_, ?_, ?_, ?_⟩
   · intro t ht; exact absurd ht (by simp [TSt.init])
   · intro t hI hn; exact absurd hI hn
   · intro t ht
@@ -797,13 +1190,47 @@ theorem init_inv (prog : List Setup) : Inv (TSt.init prog).stack (TSt.init prog)
   · intro t sp r ha; exact absurd ha (by simp [TSt.init])
   · intro t ht; exact absurd ht (by simp [TSt.init])
   · intro t; simp [TSt.init]
+  · intro t hsn hns
+    exfalso
+    apply hns
+    have hk : t ∈ akeys (TSt.init prog).status := by
+      apply Classical.byContradiction
+      intro hk
+      exact hsn ((alookup_none_iff _ _).mpr hk)
+    rw [init_status] at hk
+    obtain ⟨a, ha, he⟩ := List.mem_filterMap.mp hk
+    rw [init_stack, List.mem_reverse]
+    refine List.mem_filterMap.mpr ⟨a, ha, ?_⟩
+    cases a <;> simp [tidOf, itemOf] at he ⊢
+    exact he
 
-theorem init_inv2 (prog : List Setup) : Inv2 (TSt.init prog).stack (TSt.init prog) := by
-  refine ⟨⟨[], rfl⟩, ?_⟩
-  intro t ht; exact absurd ht (by simp [TSt.init])
+theorem init_inv2 (prog : List Setup) (h1 : (prog.filterMap allTidOf).Nodup) :
+    Inv2 (TSt.init prog).stack (TSt.init prog).lates (TSt.init prog) := by
+  refine ⟨⟨[], _, rfl, Or.inl rfl⟩, ?_, rfl, ?_⟩
+  · intro t ht; exact absurd ht (by simp [TSt.init])
+  · intro cb t hL hsn
+    rw [init_lates] at hL
+    exact absurd (init_statusOf_none prog t (late_not_started prog h1 cb t hL)) hsn
 
-theorem Mv.frame (s s' : TSt) (h : Mv s s') : s'.specs = s.specs ∧ s'.snaps = s.snaps := by
-  cases h <;> exact ⟨rfl, rfl⟩
+theorem Mv.frame (s s' : TSt) (h : Mv s s') :
+    s'.specs = s.specs ∧ s'.snaps = s.snaps ∧ s'.lates = s.lates ∧ s'.crashed = s.crashed := by
+  cases h <;> exact ⟨rfl, rfl, rfl, rfl⟩
+
+theorem Mv.status_some (s s' : TSt) (h : Mv s s') (t : Nat) (hs : s.statusOf t ≠ none) :
+    s'.statusOf t ≠ none := by
+  have key : ∀ tid st, (s.setStatus tid st).statusOf t ≠ none := by
+    intro tid st
+    rw [statusOf_setStatus]
+    by_cases htt : tid = t
+    · simp [htt]
+    · simpa only [htt, if_false] using hs
+  cases h with
+  | set tid st st' hh h hhe hnh hst hncl hask => exact key tid st'
+  | flags b1 b2 b3 hh h hhe hnh => exact hs
+  | popCb id r rest ex hh h hhe hnh hw hstk => exact hs
+  | popCbLate id r rest ex tid hw hstk hla hst => exact key tid .running
+  | popFin tid e hw hst => exact hs
+  | act tid rest sp hh hw hstk hsp hcase => exact hs
 
 /-! ### Reachable crash-free states -/
 
@@ -811,19 +1238,26 @@ theorem reach_inv (prog : List Setup) (ls : List TLab) (s : TSt)
     (h : TExec (TSt.init prog) ls s) (hc : s.crashed = []) : Inv (TSt.init prog).stack s :=
   exec_moves (Inv (TSt.init prog).stack) (Inv.move _) _ _ _ h (init_inv prog) hc
 
-theorem reach_inv2 (prog : List Setup) (h1 : (prog.filterMap tidOf).Nodup)
+theorem reach_inv2 (prog : List Setup) (h1 : (prog.filterMap allTidOf).Nodup)
     (h2 : (prog.filterMap cbIdOf).Nodup) (ls : List TLab) (s : TSt)
-    (h : TExec (TSt.init prog) ls s) (hc : s.crashed = []) : Inv2 (TSt.init prog).stack s :=
-  exec_moves (Inv2 (TSt.init prog).stack) (Inv2.move _ (init_stack_nodup prog h1 h2)) _ _ _ h
-    (init_inv2 prog) hc
+    (h : TExec (TSt.init prog) ls s) (hc : s.crashed = []) :
+    Inv2 (TSt.init prog).stack (TSt.init prog).lates s :=
+  exec_moves (Inv2 (TSt.init prog).stack (TSt.init prog).lates)
+    (Inv2.move _ _ (init_stack_nodup prog h1 h2) (init_stack_no_late prog h1)
+      (fun cb cb' tid ha hb => by
+        rw [init_lates] at ha hb
+        exact pairs_snd_unique _ (late_tid_nodup prog h1) cb cb' tid ha hb))
+    _ _ _ h (init_inv2 prog h1) hc
 
 theorem reach_frame (prog : List Setup) (ls : List TLab) (s : TSt)
     (h : TExec (TSt.init prog) ls s) (hc : s.crashed = []) :
-    s.specs = (TSt.init prog).specs ∧ s.snaps = snapshots prog [] :=
-  exec_moves (fun t => t.specs = (TSt.init prog).specs ∧ t.snaps = snapshots prog [])
+    s.specs = (TSt.init prog).specs ∧ s.snaps = snapshots prog [] ∧
+      s.lates = (TSt.init prog).lates :=
+  exec_moves (fun t => t.specs = (TSt.init prog).specs ∧ t.snaps = snapshots prog [] ∧
+      t.lates = (TSt.init prog).lates)
     (fun a b hab hm => by
-      obtain ⟨h1, h2⟩ := Mv.frame a b hm
-      exact ⟨h1.trans hab.1, h2.trans hab.2⟩) _ _ _ h ⟨rfl, rfl⟩ hc
+      obtain ⟨h1, h2, h3, _⟩ := Mv.frame a b hm
+      exact ⟨h1.trans hab.1, h2.trans hab.2.1, h3.trans hab.2.2⟩) _ _ _ h ⟨rfl, rfl, rfl⟩ hc
 
 /-! ### Conveniences for the statements -/
 
